@@ -685,8 +685,8 @@ func c18rsCount(st *c18Stats, k c18Cfg, shape c18rsShape, flow, store, layout, m
 
 // c18rsConfigs: domain sets x store x {csrf-per-request, reverse-proxy}; the attribute values
 // (whose full product is the main sweep's business) run diagonally through it in the quick tier,
-// so that every value of every attribute meets every domain set; thorough: four attribute
-// combinations x both name lengths per cell.
+// so that every value of every attribute meets every domain set; thorough: two attribute
+// combinations per cell and all four {csrf-per-request, reverse-proxy} settings.
 func c18rsConfigs(quick bool) []c18Cfg {
 	extras := [][2]bool{{false, false}, {true, true}}
 	if !quick {
@@ -704,7 +704,7 @@ func c18rsConfigs(quick bool) []c18Cfg {
 		if quick {
 			return []attr{one(i)}
 		}
-		return []attr{one(i), one(i + 5), one(i + 10), one(i + 15)}
+		return []attr{one(i), one(i + 7)}
 	}
 	var out []c18Cfg
 	i := 0
@@ -772,7 +772,7 @@ func c18ReqShape(c *Ctx, htpasswd string, redis *world.Redis) {
 		"configurations": len(cfgs), "hosts_direct_mode": len(c18rsHosts(false, quick)), "hosts_reverse_proxy_mode": len(c18rsHosts(true, quick)),
 		"operations": len(c18rsOps) + 3, "targets": len(c18rsTargets) + 2, "shapes": len(shapes), "flows": len(c18rsFlows) + 1,
 		"session_ages": []string{"fresh", "refresh due"}, "layouts": []string{"one cookie (alice)", "split (carol; cookie store)"},
-		"bound": "full product shapes x flows x ages x layouts per (configuration, host); configurations = domain sets x store x {csrf-per-request, reverse-proxy} with the attribute values running diagonally (quick) / four combinations per cell (thorough)",
+		"bound": "full product shapes x flows x ages x layouts per (configuration, host); configurations = domain sets x store x {csrf-per-request, reverse-proxy} with the attribute values running diagonally (quick) / two combinations per cell (thorough)",
 	}
 	st := &c18Stats{c: c}
 	confirmed := map[string]int{}
